@@ -693,7 +693,8 @@ fn propagate_right(
     match op {
         Operator::Minus => apply_operator(op, left, parent),
         Operator::Plus => apply_operator(inverse_op, parent, left),
-        Operator::Divide => left.div(widen_truncated_quotient(parent)?),
+        // `left = right * ratio`, where the ratio truncates into `parent`:
+        Operator::Divide => divide_product(left, &widen_truncated_quotient(parent)?),
         Operator::Multiply => divide_product(parent, left),
         _ => internal_err!("Interval arithmetic does not support the operator {}", op),
     }?
